@@ -6,23 +6,50 @@ package main
 // key / per-key calls; (b) commutative accumulation; (c) appended then sorted before use; (d)
 // selection by equality on a unique key; (e) debug only; (f) node-local cache record rebuilt into a map.
 var ccrTriage = map[string]string{
-	"verifier.(*rawMomentumVerifier).timestamp|clock:time.Now":                                                                               "the 'not in the future' rule the property itself states; only widens rejection by local clock, never acceptance of different content",
-	"chain.(*accountPool).GetAllUncommittedAccountBlocks|map-range:recv.managers":                                                            "[exit=0 append=1 sorted=0] class (c): consumers (newGenesisMomentum, pillar.generateMomentum) pass the slice to NewMomentumContent, which sorts before it enters a hash; filterBlocksToCommit depends only on order within one address's run, which the body preserves",
-	"chain/genesis.genesisPlasmaContractConfig|map-range:make(map[types.Address]*big.Int)":                                                   "[exit=0 append=0 sorted=0] class (a): one storage write per beneficiary key",
-	"chain/genesis.wrap|map-range:a0.GenesisBlocks.Blocks[(iter+1)].BalanceList":                                                             "[exit=0 append=0 sorted=0] class (a): SetBalance per token key",
-	"chain/momentum.(*momentumStore).ComputePillarDelegations|map-range:next(range(recv.computeBackers(recv.getAllDelegations()#0)#0))#2":    "[exit=0 append=0 sorted=0] class (b): sums backer weights into the pillar weight",
-	"chain/momentum.(*momentumStore).ComputePillarDelegations|map-range:recv.computeBackers(recv.getAllDelegations()#0)#0":                   "[exit=0 append=0 sorted=1] class (a): fills per-pillar details by name; the result list is built from the ordered pillar list, not from this loop",
-	"common/types.(*PillarDelegationDetail).Merge|map-range:a0.Backers":                                                                      "[exit=0 append=0 sorted=0] class (a)/(b): per-address accumulation",
-	"common/types.(*PillarDelegationDetail).Reduce|map-range:recv.Backers":                                                                   "[exit=0 append=0 sorted=0] class (a): per-address division",
-	"consensus.(*API).EpochStats|map-range:recv.points.GetEpochPoints().GetPoint(a0)#0.Pillars":                                              "[exit=0 append=0 sorted=0] class (a): copies into a map by name",
-	"consensus.(*API).GetPillarDelegationsByEpoch|map-range:make(map[string]*types.PillarDelegationDetail)":                                  "[exit=0 append=0 sorted=0] class (a): per-name Reduce",
-	"consensus.(*compoundPoints).generatePointFromLower|map-range:storage.NewEmptyPoint(a1.Hash).Pillars":                                    "[exit=0 append=0 sorted=0] class (a): per-name division of the weight",
-	"consensus/storage.(*Point).LeftAppend|map-range:a0.Pillars":                                                                             "[exit=0 append=0 sorted=0] class (a): merge by name",
-	"consensus/storage.(*Point).Marshal|map-range:recv.Pillars":                                                                              "[exit=0 append=1 sorted=0] class (f): node-local cache record; Unmarshal rebuilds a map by name, the order never leaves the node nor enters a hash",
-	"vm/abi.(*ABIContract).MethodById|map-range:recv.Methods":                                                                                "[exit=1 append=0 sorted=0] class (d): selects by equality on the 4-byte id, unique per ABI",
-	"vm/embedded/implementation.computeDetailedPillarReward|map-range:a0.GetPillarDelegationsByEpoch(a1)#0":                                  "[exit=1 append=0 sorted=1] class (a): addReward per backer key; the early exit is an error return",
-	"vm/embedded/implementation.computeDetailedPillarReward|map-range:make(map[types.Address]*big.Int)":                                      "[exit=0 append=1 sorted=1] class (c)/(e): keys appended then sort.Strings; debug output only",
-	"vm/embedded/implementation.computeDetailedPillarReward|map-range:next(range(a0.GetPillarDelegationsByEpoch(a1)#0))#2.Backers":           "[exit=0 append=0 sorted=0] or [exit=0 append=0 sorted=1] class (a)/(b): two loops over one pillar's backers — the sum of backer amounts and the per-backer share (addReward keyed by backer)",
-	"vm/embedded/implementation.computePillarRewardForEpoch|map-range:a0.Pillars":                                                            "[exit=0 append=0 sorted=0] class (b): sums expected block counts",
-	"vm/embedded/implementation.computePillarsRewardForEpoch|map-range:a0.EpochStats(a1)#0.Pillars":                                          "[exit=0 append=1 sorted=1] class (c): names appended then sort.Strings before use",
+	"verifier.(*rawMomentumVerifier).timestamp|clock:time.Now":                                                                            "the 'not in the future' rule the property itself states; only widens rejection by local clock, never acceptance of different content",
+	"chain.(*accountPool).GetAllUncommittedAccountBlocks|map-range:recv.managers":                                                         "[exit=0 append=1 sorted=0] class (c): consumers (newGenesisMomentum, pillar.generateMomentum) pass the slice to NewMomentumContent, which sorts before it enters a hash; filterBlocksToCommit depends only on order within one address's run, which the body preserves",
+	"chain/genesis.genesisPlasmaContractConfig|map-range:make(map[types.Address]*big.Int)":                                                "[exit=0 append=0 sorted=0] class (a): one storage write per beneficiary key",
+	"chain/genesis.wrap|map-range:a0.GenesisBlocks.Blocks[(iter+1)].BalanceList":                                                          "[exit=0 append=0 sorted=0] class (a): SetBalance per token key",
+	"chain/momentum.(*momentumStore).ComputePillarDelegations|map-range:next(range(recv.computeBackers(recv.getAllDelegations()#0)#0))#2": "[exit=0 append=0 sorted=0] class (b): sums backer weights into the pillar weight",
+	"chain/momentum.(*momentumStore).ComputePillarDelegations|map-range:recv.computeBackers(recv.getAllDelegations()#0)#0":                "[exit=0 append=0 sorted=1] class (a): fills per-pillar details by name; the result list is built from the ordered pillar list, not from this loop",
+	"common/types.(*PillarDelegationDetail).Merge|map-range:a0.Backers":                                                                   "[exit=0 append=0 sorted=0] class (a)/(b): per-address accumulation",
+	"common/types.(*PillarDelegationDetail).Reduce|map-range:recv.Backers":                                                                "[exit=0 append=0 sorted=0] class (a): per-address division",
+	"consensus.(*API).EpochStats|map-range:recv.points.GetEpochPoints().GetPoint(a0)#0.Pillars":                                           "[exit=0 append=0 sorted=0] class (a): copies into a map by name",
+	"consensus.(*API).GetPillarDelegationsByEpoch|map-range:make(map[string]*types.PillarDelegationDetail)":                               "[exit=0 append=0 sorted=0] class (a): per-name Reduce",
+	"consensus.(*compoundPoints).generatePointFromLower|map-range:storage.NewEmptyPoint(a1.Hash).Pillars":                                 "[exit=0 append=0 sorted=0] class (a): per-name division of the weight",
+	"consensus/storage.(*Point).LeftAppend|map-range:a0.Pillars":                                                                          "[exit=0 append=0 sorted=0] class (a): merge by name",
+	"consensus/storage.(*Point).Marshal|map-range:recv.Pillars":                                                                           "[exit=0 append=1 sorted=0] class (f): node-local cache record; Unmarshal rebuilds a map by name, the order never leaves the node nor enters a hash",
+	"vm/abi.(*ABIContract).MethodById|map-range:recv.Methods":                                                                             "[exit=1 append=0 sorted=0] class (d): selects by equality on the 4-byte id, unique per ABI",
+	"vm/embedded/implementation.computeDetailedPillarReward|map-range:a0.GetPillarDelegationsByEpoch(a1)#0":                               "[exit=1 append=0 sorted=1] class (a): addReward per backer key; the early exit is an error return",
+	"vm/embedded/implementation.computeDetailedPillarReward|map-range:make(map[types.Address]*big.Int)":                                   "[exit=0 append=1 sorted=1] class (c)/(e): keys appended then sort.Strings; debug output only",
+	"vm/embedded/implementation.computeDetailedPillarReward|map-range:next(range(a0.GetPillarDelegationsByEpoch(a1)#0))#2.Backers":        "[exit=0 append=0 sorted=0] or [exit=0 append=0 sorted=1] class (a)/(b): two loops over one pillar's backers — the sum of backer amounts and the per-backer share (addReward keyed by backer)",
+	"vm/embedded/implementation.computePillarRewardForEpoch|map-range:a0.Pillars":                                                         "[exit=0 append=0 sorted=0] class (b): sums expected block counts",
+	"vm/embedded/implementation.computePillarsRewardForEpoch|map-range:a0.EpochStats(a1)#0.Pillars":                                       "[exit=0 append=1 sorted=1] class (c): names appended then sort.Strings before use",
+}
+
+// cachePkgs / cacheTriage: every map / LRU / sync.Map held in a struct field or package variable of
+// the ledger-side packages, with the mechanism that keeps it consistent with the ledger. A new entry
+// (a new cache) is reported until it is triaged here with its invalidation mechanism.
+var cachePkgs = []string{"common/db", "chain", "chain/momentum", "chain/account", "verifier", "vm", "vm/vm_context", "vm/embedded", "vm/embedded/implementation", "vm/embedded/definition", "consensus", "consensus/storage", "pillar", "protocol"}
+
+var cacheTriage = map[string]string{
+	"chain.accountPool.managers":                 "purge-on-rewind + rebuild-on-insert (C06 rows on DeleteMomentum/InsertMomentum/rebuild), under accountPool.changes (C14 lockset)",
+	"common/db.ldbManager.l1Cache":               "purge-on-rewind: Pop purges under the lock (C06/C07 rows)",
+	"common/db.ldbManager.l2Cache":               "purge-on-rewind: Pop purges under the lock (C06/C07 rows)",
+	"common/db.memdbManager.patches":             "per-version records of one pool manager; the manager is discarded wholesale on rewind/rebuild",
+	"common/db.memdbManager.previous":            "per-version parent links of one pool manager; same lifetime",
+	"common/db.memdbManager.versions":            "per-version views of one pool manager; same lifetime",
+	"consensus/storage.DB.electionCache":         "content-addressed: keyed by the proof momentum's hash on read and write (C06 rows)",
+	"consensus/storage.DB.pointCache":            "validate-on-read: GetPoint compares EndHash with the current chain, mismatch ⇒ DeletePointByHeight removes the LRU entry too (C06 rows)",
+	"consensus/storage.Point.Pillars":            "data record (content of one point), copied on merge (C06 LeftAppend row)",
+	"protocol.errorToString":                     "constant table",
+	"protocol.peer.knownBlocks":                  "per-peer gossip de-duplication by hash; not ledger-derived, never consulted for validity",
+	"protocol.peer.knownTxs":                     "per-peer gossip de-duplication by hash; not ledger-derived, never consulted for validity",
+	"protocol.peerSet.peers":                     "connection registry; not ledger-derived",
+	"vm/embedded.acceleratorEmbedded":            "dispatch table written only at package init (C17 who-may-write)",
+	"vm/embedded.bridgeAndLiquidityEmbedded":     "dispatch table written only at package init (C17 who-may-write)",
+	"vm/embedded.embeddedImplementation.m":       "dispatch table written only at package init (C17 who-may-write)",
+	"vm/embedded.htlcEmbedded":                   "dispatch table written only at package init (C17 who-may-write)",
+	"vm/embedded.originEmbedded":                 "dispatch table written only at package init (C17 who-may-write)",
+	"vm/embedded/definition.HashTypeDigestSizes": "constant table",
 }
